@@ -10,6 +10,7 @@
 pub mod explore;
 pub mod h1;
 pub mod peer;
+pub mod scen;
 pub mod worker;
 
 use std::{
@@ -257,6 +258,12 @@ impl Sim {
     }
 }
 
+fn peer_closed(fd: c_int) -> bool {
+    let mut p = libc::pollfd { fd, events: libc::POLLRDHUP, revents: 0 };
+    let r = unsafe { libc::poll(&mut p, 1, 0) };
+    r > 0 && p.revents & (libc::POLLRDHUP | libc::POLLHUP | libc::POLLERR) != 0
+}
+
 #[derive(Clone, Copy, Debug)]
 enum IoChoice {
     Short(usize),
@@ -399,6 +406,13 @@ impl SimHooks for Sim {
             unsafe { libc::_exit(42) };
         }
         let class = self.class_of(fd);
+        // Soundness: a short / refused read stands for "the rest arrives
+        // later". That story is only consistent while the peer has not closed:
+        // once FIN / RST is queued a real kernel never answers EAGAIN and never
+        // reports the hang-up before the data, so no fault is injected then.
+        if peer_closed(fd) {
+            return IoDecision::Pass(len);
+        }
         let alts = self.fault_alternatives(class, false, len);
         if alts.is_empty() {
             return IoDecision::Pass(len);
